@@ -232,33 +232,51 @@ def rule_lazy(repo, res):
         res.add(Finding("LAZY", "lexer.lexer", "not a generator",
                         "lexer() is no longer a generator: the whole text (including everything after END) is "
                         "lexed before the parser sees the first token", where=f"pvl/lexer.py:{fn.lineno}"))
-    uses = [n for n in ast.walk(fn) if isinstance(n, ast.Name) and n.id == svar and isinstance(n.ctx, ast.Load)]
-    for u in uses:
-        p = getattr(u, "_parent", None)
-        ok = False
-        why = ""
-        if isinstance(p, ast.Call) and isinstance(p.func, ast.Name) and p.func.id == "enumerate":
-            ok = True
-        elif isinstance(p, ast.Call) and isinstance(p.func, ast.Name) and p.func.id in ("_prev_char", "_next_char") \
-                and len(p.args) == 2 and isinstance(p.args[1], ast.Name) and p.args[1].id == ivar:
-            ok = True
-        elif isinstance(p, ast.Call) and "LexerError" in norm(p.func):
-            ok = True
-        elif isinstance(p, ast.Attribute) and p.attr == "startswith":
-            call = getattr(p, "_parent", None)
-            ok = isinstance(call, ast.Call) and len(call.args) >= 2
-        elif isinstance(p, ast.Subscript) and not isinstance(p.slice, ast.Slice):
-            ok = True
-        elif isinstance(p, ast.Call) and isinstance(p.func, ast.Name) and p.func.id == "len":
-            ok = True
-        anchor = norm(getattr(p, "_parent", p) if isinstance(p, ast.Attribute) else p, 90)
-        res.oblige("LAZY", f"lexer use of the text: `{anchor}`", ok=ok)
-        if not ok:
-            res.add(Finding("LAZY", "lexer.lexer", anchor,
-                            f"lexer() uses its text argument in `{anchor}`, which is not one of the bounded "
-                            "look-around forms (enumerate, _prev_char/_next_char at i, startswith at i+1): "
-                            "text after the END statement can influence or delay the result",
-                            where=f"pvl/lexer.py:{u.lineno}"))
+    total = [0]
+
+    def check_uses(f_, svar_, ivar_, depth=0):
+        uses = [n for n in ast.walk(f_) if isinstance(n, ast.Name) and n.id == svar_ and isinstance(n.ctx, ast.Load)]
+        total[0] += len(uses)
+        for u in uses:
+            p = getattr(u, "_parent", None)
+            ok = False
+            if isinstance(p, ast.Call) and isinstance(p.func, ast.Name) and p.func.id == "enumerate":
+                ok = True
+            elif isinstance(p, ast.Call) and isinstance(p.func, ast.Name) and p.func.id in ("_prev_char", "_next_char") \
+                    and len(p.args) == 2 and isinstance(p.args[1], ast.Name) and p.args[1].id == ivar_:
+                ok = True
+            elif isinstance(p, ast.Call) and "LexerError" in norm(p.func):
+                ok = True
+            elif isinstance(p, ast.Attribute) and p.attr == "startswith":
+                call = getattr(p, "_parent", None)
+                ok = isinstance(call, ast.Call) and len(call.args) >= 2
+            elif isinstance(p, ast.Subscript) and not isinstance(p.slice, ast.Slice):
+                ok = True
+            elif isinstance(p, ast.Call) and isinstance(p.func, ast.Name) and p.func.id == "len":
+                ok = True
+            elif isinstance(p, ast.Call) and isinstance(p.func, ast.Name) and p.func.id in repo.module("lexer").functions \
+                    and u in p.args and depth < 4 and not p.keywords:
+                # handed to another helper of lexer.py together with the index: the helper's uses are checked instead
+                h = repo.module("lexer").functions[p.func.id]
+                hp = [a.arg for a in h.args.args]
+                if len(hp) == len(p.args):
+                    hs = hp[p.args.index(u)]
+                    hi = None
+                    for a_, pn in zip(p.args, hp):
+                        if isinstance(a_, ast.Name) and a_.id == ivar_:
+                            hi = pn
+                    check_uses(h, hs, hi, depth + 1)
+                    ok = True
+            anchor = norm(getattr(p, "_parent", p) if isinstance(p, ast.Attribute) else p, 90)
+            res.oblige("LAZY", f"{f_.name} use of the text: `{anchor}`", ok=ok)
+            if not ok:
+                res.add(Finding("LAZY", "lexer.lexer", anchor,
+                                f"{f_.name}() uses the text being lexed in `{anchor}`, which is not one of the bounded "
+                                "look-around forms (enumerate, _prev_char/_next_char at i, startswith at i+1): "
+                                "text after the END statement can influence or delay the result",
+                                where=f"pvl/lexer.py:{u.lineno}"))
+    check_uses(fn, svar, ivar)
+    uses = [None] * total[0]
     res.floor("uses of the text in lexer()", len(uses), 4)
 
 
@@ -311,22 +329,29 @@ def rule_lookahead(repo, res):
         if g is not None:
             guard = s_
             break
-    n = 0
-    for c in ast.walk(loop):
-        if _is_call_to(c, "char_allowed"):
-            if guard is not None and any(c is x for x in ast.walk(guard)):
+    # (the end-of-lexeme decision itself is decided on the language model: langrules.rule_lookahead_lang)
+    from .inline import closure
+    cl = closure(repo, None, fn, module="lexer")
+    n = sum(1 for (_o, f_) in cl for c in ast.walk(f_) if _is_call_to(c, "char_allowed")
+            and not (f_ is fn and guard is not None and any(c is x for x in ast.walk(guard))))
+    for (_o, f_) in cl:
+        hp = [a.arg for a in f_.args.args]
+        for c in ast.walk(f_):
+            if not _is_call_to(c, "char_allowed"):
                 continue
-            n += 1
+            if f_ is fn and guard is not None and any(c is x for x in ast.walk(guard)):
+                continue
             arg = norm(c.args[0]) if c.args else ""
-            ok = arg in nexts
-            res.oblige("LEX-LOOKAHEAD", f"lexer(): `{norm(c)}` outside the guard tests the look-ahead character", ok=ok)
-            if not ok:
-                res.add(Finding("LEX-LOOKAHEAD", "lexer.lexer", norm(c),
-                                f"the end-of-lexeme decision of lexer() calls `{norm(c)}`; the current character has already "
-                                "passed the guard, so this test is vacuous: a lexeme is no longer ended before a character "
-                                "outside the dialect's set (END directly followed by binary data raises instead of "
-                                "returning the label)", where=f"pvl/lexer.py:{c.lineno}"))
-    res.floor("char_allowed look-ahead tests in lexer()", n, 1)
+            ok = (arg in nexts) if f_ is fn else True
+            if f_ is fn:
+                res.oblige("LEX-LOOKAHEAD", f"lexer(): `{norm(c)}` outside the guard tests the look-ahead character", ok=ok)
+                if not ok:
+                    res.add(Finding("LEX-LOOKAHEAD", "lexer.lexer", norm(c),
+                                    f"the end-of-lexeme decision of lexer() calls `{norm(c)}`; the current character has already "
+                                    "passed the guard, so this test is vacuous: a lexeme is no longer ended before a character "
+                                    "outside the dialect's set (END directly followed by binary data raises instead of "
+                                    "returning the label)", where=f"pvl/lexer.py:{c.lineno}"))
+    res.floor("char_allowed look-ahead tests in lexer() and its helpers", n, 1)
     lc = repo.function("lexer", "lex_continue")
     params = [a.arg for a in lc.args.args]
     calls = [c for c in ast.walk(lc) if _is_call_to(c, "char_allowed")]
